@@ -120,6 +120,12 @@ pub struct Trace {
     pub tokens: Vec<String>,
     pub tail: String,
     pub panicked: bool,
+    /// per token: the text of the error the call returned ("" if none) - for classifying violations, never compared with the model
+    pub err_texts: Vec<String>,
+}
+
+thread_local! {
+    static ERR_TEXTS: std::cell::RefCell<Vec<String>> = std::cell::RefCell::new(vec![]);
 }
 
 impl Trace {
@@ -142,6 +148,7 @@ pub fn run_ops(file: &[u8], visible0: usize, ops: &[Op], cfg: &Config) -> Trace 
     dec.set_transformations(transformations(cfg.flags));
     let mut stage = Stage::Dec(dec);
     let mut tokens = vec![];
+    let mut err_texts: Vec<String> = vec![];
     let mut panicked = false;
     // the caller's frame buffer survives a next_frame that ran out of input: the retried call gets the same buffer
     let pending: std::cell::RefCell<Option<Vec<u8>>> = std::cell::RefCell::new(None);
@@ -150,8 +157,10 @@ pub fn run_ops(file: &[u8], visible0: usize, ops: &[Op], cfg: &Config) -> Trace 
             let v = visible.load(Ordering::SeqCst);
             visible.store((v + n).min(file.len()), Ordering::SeqCst);
             tokens.push("ok".to_string());
+            err_texts.push(String::new());
             continue;
         }
+        ERR_TEXTS.with(|t| t.borrow_mut().clear());
         let st = std::mem::replace(&mut stage, Stage::Dead);
         if !matches!(op, Op::NextFrame(_)) {
             *pending.borrow_mut() = None;
@@ -237,9 +246,11 @@ pub fn run_ops(file: &[u8], visible0: usize, ops: &[Op], cfg: &Config) -> Trace 
             Ok((s, t)) => {
                 stage = s;
                 tokens.push(t);
+                err_texts.push(ERR_TEXTS.with(|t| t.borrow_mut().drain(..).collect::<Vec<_>>().join("; ")));
             }
             Err(p) => {
                 tokens.push(format!("PANIC({})", p));
+                err_texts.push(String::new());
                 panicked = true;
                 break;
             }
@@ -259,10 +270,11 @@ pub fn run_ops(file: &[u8], visible0: usize, ops: &[Op], cfg: &Config) -> Trace 
         }
         _ => "noreader".to_string(),
     };
-    Trace { tokens, tail, panicked }
+    Trace { tokens, tail, panicked, err_texts }
 }
 
 fn err_short(e: &png::DecodingError) -> String {
+    ERR_TEXTS.with(|t| t.borrow_mut().push(e.to_string()));
     match e {
         png::DecodingError::IoError(e) if e.kind() == std::io::ErrorKind::UnexpectedEof => "eof".into(),
         png::DecodingError::IoError(e) => format!("io:{:?}", e.kind()),
